@@ -260,6 +260,15 @@ func (m *fakeMaster) runScript(c net.Conn, mc *masterConn, acts []action) bool {
 				return true
 			}
 			seq += byte(1 + (len(a.data)+1)/0xffffff)
+		case "raw":
+			// a packet sent as it is (the caller chose its first byte)
+			if err := writePacket(c, seq, a.data); err != nil {
+				m.mu.Lock()
+				mc.clientClosed = true
+				m.mu.Unlock()
+				return true
+			}
+			seq += byte(1 + len(a.data)/0xffffff)
 		case "gate":
 			select {
 			case <-a.gate:
